@@ -48,6 +48,9 @@ def parts(quick):
                                 ("capall", "grpall", "inner", "altun", "trail"), ALONE, ops=("=~",)), None, None))
         P.append(("odd", cfg(ODD_ATOMS + ("dot", "empty"), ("a", "c0"), ("cap", "r2"), ("cat",), 1, "AP_std", ("", "i", "s"), ("plain",), ALONE,
                              ops=("=~",)), None, None))
+        # the named classes next to single-valued text and alone ( s-\d , \ds , \d ): shared tables
+        P.append(("named", cfg(("d10", "w63", "lower", "sdash", "a"), ("d10", "sdash", "a", "lower"), ("cap", "r2"), ("cat", "alt"), 1, "AP_one", ("",), ("plain",), ALONE, maxcard=700),
+                  None, None))
         # anchors inside the expression, next to literals (two constructor applications: a $ b)
         P.append(("inanch", cfg(("a", "ab", "eot", "bot", "empty"), ("a", "eot", "bot", "eol", "dollar"), ("cap",), ("cat",), 2, "AP_std", ("", "m"), ("plain",), ALONE),
                   None, None))
@@ -69,6 +72,8 @@ def parts(quick):
                                 ("capall", "grpall", "inner", "altun", "trail"), ALONE), None, None))
         for k, pre in enumerate(("", "i", "s", "m")):
             P.append(("odd_%d" % k, cfg(ODD_ATOMS, ("a", "c2", "c0"), UN_ALL, ("cat", "alt"), 1, "AP_std", (pre,), ("plain",), ALONE), None, None))
+        P.append(("named", cfg(("d10", "w63", "lower", "sdash", "a", "ab"), ("d10", "sdash", "a", "lower", "w63"), ("cap", "r2", "quest"), ("cat", "alt"), 2, "AP_std", ("", "i"), ("plain",), ALONE, maxcard=700),
+                  None, None))
         P.append(("inanch", cfg(("a", "ab", "c2", "eot", "bot", "eol", "bol", "empty"), ("a", "eot", "bot", "eol", "bol", "dollar", "c2"), ("cap", "quest"), ("cat", "alt"), 2,
                                 "AP_std", ("", "m", "i"), ("plain",), ALONE), None, None))
         P.append(("wideA", cfg(("w99", "w100", "w101", "w50"), WIDE_BIN, ("cap", "r2"), ("cat", "alt"), 1, "AP_two", ("", "i"),
